@@ -44,32 +44,87 @@ Proof.
   - exists (POther x). auto.
 Qed.
 
+
+(* ---------- the tag rule of _tags_with_base ---------- *)
+Lemma prefix_app : forall a b, prefix a (a ++ b) = true.
+Proof.
+  induction a; simpl; intros b. destruct b; reflexivity.
+  destruct (ascii_dec a a); [apply IHa|congruence].
+Qed.
+
+Lemma append_assoc_s : forall a b c : string, ((a ++ b) ++ c = a ++ (b ++ c))%string.
+Proof. induction a; simpl; intros; [reflexivity|rewrite IHa; reflexivity]. Qed.
+
+Lemma prefix_base_us : forall b s, prefix (b ++ "_") (b ++ "_" ++ s) = true.
+Proof. intros. rewrite <- append_assoc_s. apply prefix_app. Qed.
+
+(* an observable's own tag always has its base, whatever the suffix (empty, "-", "=", unicode, ...) *)
+Lemma own_tag_has_base : forall b sfx d, tag_has_base (e_tag (MkEntry b sfx d)) b = true.
+Proof.
+  intros b [s|] d; unfold tag_has_base, e_tag; cbn [e_base e_suffix].
+  - apply orb_true_iff. right. apply prefix_base_us.
+  - rewrite String.eqb_refl. reflexivity.
+Qed.
+
+Lemma mem_In : forall s l, mem s l = true -> In s l.
+Proof.
+  unfold mem. intros s l H. apply existsb_exists in H. destruct H as [x [Hx E]].
+  apply String.eqb_eq in E. subst. auto.
+Qed.
+
+Lemma per_atom_selected : forall b sfx d, mem b per_atom_tags = true ->
+  existsb (tag_has_base (e_tag (MkEntry b sfx d))) per_atom_tags = true.
+Proof.
+  intros. apply existsb_exists. exists b. split. apply mem_In; auto. apply own_tag_has_base.
+Qed.
+
+(* the tags of the scalar whitelisted observables never look like a per-atom tag, whatever the suffix *)
+Lemma invariant_not_selected : forall b sfx d, mem b invariant_tags = true ->
+  existsb (tag_has_base (e_tag (MkEntry b sfx d))) per_atom_tags = false.
+Proof.
+  intros b sfx d H. apply mem_In in H. simpl in H.
+  destruct H as [H|[H|[H|[H|[]]]]]; subst b; destruct sfx; reflexivity.
+Qed.
+
+Lemma allowed_tags_covered_pre : forall b, mem b allowed_permutable = true ->
+  mem b per_atom_tags = true \/ mem b invariant_tags = true.
+Proof.
+  intros b H. unfold mem, allowed_permutable in H. rewrite existsb_app in H.
+  apply orb_true_iff in H. exact H.
+Qed.
+
 Section V.
 Variable v : variant.
 
 Lemma entry_roundtrip : forall n perm q e, v_tags v = true -> is_perm n perm ->
-  inv_permutation perm = Ok q -> sized_entry n e ->
+  inv_permutation perm = Ok q -> sized_entry n e -> mem (e_base e) allowed_permutable = true ->
   exists e', to_internal_entry perm e = Ok e' /\ unpermute_entry v q e' = Ok e.
 Proof.
-  intros n perm q [b s d] Ht Hp Hq Hs. unfold to_internal_entry, unpermute_entry, selected. simpl.
-  rewrite Ht. destruct (mem b per_atom_tags) eqn:M.
+  intros n perm q [b s d] Ht Hp Hq Hs Ha. unfold to_internal_entry, unpermute_entry, selected.
+  cbn [e_base e_suffix e_data]. rewrite Ht. destruct (mem b per_atom_tags) eqn:M.
   - destruct (@mapM_roundtrip _ _ (permute_payload perm) (permute_payload q) d) as [d' [E1 E2]].
     { eapply Forall_impl; [|exact Hs]. intros p Hp'. apply (@payload_roundtrip n perm q p Hp Hq Hp'). }
-    rewrite E1. simpl. eexists. split. reflexivity. simpl. rewrite M, E2. reflexivity.
-  - eexists. split. reflexivity. simpl. rewrite M. reflexivity.
+    rewrite E1. cbn [res_bind]. eexists. split. reflexivity.
+    rewrite (per_atom_selected b s d' M). cbn [e_base e_suffix e_data]. rewrite E2. reflexivity.
+  - eexists. split. reflexivity.
+    assert (I : mem b invariant_tags = true).
+    { destruct (allowed_tags_covered_pre b Ha) as [H|H]; [congruence|exact H]. }
+    rewrite (invariant_not_selected b s d I). reflexivity.
 Qed.
 
 (* MAIN: if the simulation stores, for every per-atom result, the value of atom perm[s] at slot s
    (and atom_order = permute_tuple(qubit_ids, perm)), then permute_results returns every result and
    the atom order in register order, whatever the tag suffixes *)
 Theorem results_roundtrip : forall n perm ao es, v_tags v = true -> is_perm n perm ->
-  length ao = n -> Forall (sized_entry n) es ->
+  length ao = n -> Forall (sized_entry n) es -> config_keeps_reordering (map e_base es) = true ->
   exists r', to_internal perm (ao, es) = Ok r' /\ permute_results v perm true r' = Ok (ao, es).
 Proof.
-  intros n perm ao es Ht Hp Hl Hs.
+  intros n perm ao es Ht Hp Hl Hs Hw.
   destruct (inv_permutation_spec Hp) as [q [Hq _]].
   destruct (@mapM_roundtrip _ _ (to_internal_entry perm) (unpermute_entry v q) es) as [es' [E1 E2]].
-  { eapply Forall_impl; [|exact Hs]. intros e He. apply (@entry_roundtrip n perm q e Ht Hp Hq He). }
+  { unfold config_keeps_reordering in Hw. rewrite forallb_forall in Hw.
+    rewrite Forall_forall in Hs. apply Forall_forall. intros e He.
+    apply (@entry_roundtrip n perm q e Ht Hp Hq (Hs e He)). apply Hw. apply in_map. exact He. }
   destruct (inverse_undoes_permute_list ao Hl Hp) as [q' [l1 [l2 [E [_ [A1 [A2 _]]]]]]].
   rewrite Hq in E. inversion E; subst q'.
   exists (l1, es'). unfold to_internal, permute_results, permute_tuple. simpl.
@@ -79,10 +134,11 @@ Qed.
 
 Theorem every_exit_unpermutes : forall n perm ao es x, v_tags v = true -> v_resume v = true ->
   is_perm n perm -> length ao = n -> Forall (sized_entry n) es ->
+  config_keeps_reordering (map e_base es) = true ->
   exists r', to_internal perm (ao, es) = Ok r' /\ exit_results v x perm true r' = Ok (ao, es).
 Proof.
-  intros n perm ao es x Ht Hr Hp Hl Hs.
-  destruct (@results_roundtrip n perm ao es Ht Hp Hl Hs) as [r' [E1 E2]]. exists r'. split; auto.
+  intros n perm ao es x Ht Hr Hp Hl Hs Hw.
+  destruct (@results_roundtrip n perm ao es Ht Hp Hl Hs Hw) as [r' [E1 E2]]. exists r'. split; auto.
   destruct x; simpl; auto. rewrite Hr. auto.
 Qed.
 
@@ -119,10 +175,27 @@ End V.
 (* whitelist: every base tag that keeps the reordering on is un-permuted or has no per-atom structure *)
 Theorem allowed_tags_covered : forall b, mem b allowed_permutable = true ->
   mem b per_atom_tags = true \/ mem b invariant_tags = true.
+Proof. exact allowed_tags_covered_pre. Qed.
+
+(* the prefix rule is only safe behind the whitelist: a stored result of a non-whitelisted observable whose
+   tag merely starts with "occupation_" would be re-ordered although it was never permuted *)
+Definition witness_probe : list string * list entry :=
+  (["q0"; "q1"]%string, [MkEntry "occupation_probe" None [PVec [1%Z; 0%Z]]]).
+Theorem prefix_rule_needs_whitelist :
+  exists perm r r', is_perm 2 perm /\ length (fst r) = 2 /\ Forall (sized_entry 2) (snd r) /\
+    config_keeps_reordering (map e_base (snd r)) = false /\
+    to_internal perm r = Ok r' /\ permute_results fixed perm true r' <> Ok r.
 Proof.
-  intros b H. unfold mem, allowed_permutable in H. rewrite existsb_app in H.
-  apply orb_true_iff in H. exact H.
+  exists [1; 0], witness_probe, (["q1"; "q0"]%string, [MkEntry "occupation_probe" None [PVec [1%Z; 0%Z]]]).
+  split. apply is_permb_spec; reflexivity. split; auto. split.
+  { repeat constructor. } split. reflexivity. split. reflexivity. vm_compute. discriminate.
 Qed.
+
+(* hostile suffixes are covered by the general theorem; a concrete instance for the record *)
+Example hostile_suffixes_selected :
+  forallb (fun s => existsb (tag_has_base (e_tag (MkEntry "occupation" (Some s) []))) per_atom_tags)
+    [""; "t-end"; "t=1.0"; "0.5"; " "; "matrix"; "a_b"; "/+"]%string = true.
+Proof. reflexivity. Qed.
 
 (* ---------------- witnesses against the legacy variant ---------------- *)
 Theorem legacy_drive_routing_refuted :
